@@ -119,8 +119,7 @@ def checkWired (h : Heap) : List String :=
       isAnc n.pFont .font x && isAnc n.disp .font x),
     ("full", all fun x n =>
       (!(n.kind == .glyph && n.pLayer.isSome) || (n.pLayerSet.isSome && n.pFont.isSome)) &&
-      (!(n.kind == .layer && n.pLayerSet.isSome) || (ancOf h .font x).isSome) &&
-      (!(n.kind == .layerSet) || n.pFont.isSome)),
+      (!(n.kind == .layer && n.pLayerSet.isSome) || (ancOf h .font x).isSome)),
     ("regSound", h.regs.all fun r => centreOf h r.observable == some r.centre &&
       ((r.name == .all && r.observer == r.observable) ||
        ((namesFor h r.observer r.observable).contains r.name && linkB h r.observer r.observable))),
